@@ -82,6 +82,16 @@ impl BRC20ProgEngine {
             }
         }
 
+        // The genesis block can only be the next block, and the controller can only be deployed
+        // once (its address depends on the indexer account's nonce): anything else fails after the
+        // deployment has been executed, with the block left open
+        if genesis_height != self.get_next_block_height()? {
+            return Err("Genesis block height must be the next block height".into());
+        }
+        if self.get_account_nonce(*crate::global::INDEXER_ADDRESS)? != 0 {
+            return Err("BRC20_Controller is already deployed".into());
+        }
+
         // Deploy BRC20 Controller contract
         let result = self.add_tx_to_block(
             genesis_timestamp,
